@@ -6,9 +6,12 @@
  *        P, Q = polynomials (polyio text) both of degree >= 1 in xV.
  *     prints   R r_fresh r_used r_aliasA r_aliasB  PSC n p_0 .. p_{n-1}  PSCU n ...  SUB n s_0 .. s_{n-1}  SUBU n ...
  *        (n = min(deg P, deg Q) + 1; the ...U lists were computed into pre-used output polynomials)
+ *   srp M V P Q   the same in a polynomial context over Z_M, M prime (coefficients printed in the symmetric range)
  *   disc V P      the computation of polyxx discriminant(): div(resultant(P, dP/dxV), lc(P)), "1" for degree 1
  */
 #include "polyio.h"
+#include <unistd.h>
+#define CASE_SECONDS 20
 
 static void set_top(int v) {
   int perm[PIO_NV]; int n = 0;
@@ -22,9 +25,12 @@ static void print_list(const char* tag, lp_polynomial_t** l, size_t n) {
   for (size_t i = 0; i < n; ++i) { putchar(' '); pio_print(l[i]); }
 }
 
+static const lp_polynomial_context_t* g_ctx;   /* context of the current case: pio_ctx (over Z) or one over Z_p */
+static lp_polynomial_t* cnew(const char* s) { lp_polynomial_t* p = lp_polynomial_new(g_ctx); pio_parse_ctx(g_ctx, p, s); return p; }
+
 static lp_polynomial_t** new_list(size_t n, const char* init) {
   lp_polynomial_t** l = malloc(n * sizeof(lp_polynomial_t*));
-  for (size_t i = 0; i < n; ++i) l[i] = init ? pio_new(init) : lp_polynomial_new(pio_ctx);
+  for (size_t i = 0; i < n; ++i) l[i] = init ? cnew(init) : lp_polynomial_new(g_ctx);
   return l;
 }
 static void del_list(lp_polynomial_t** l, size_t n) {
@@ -32,46 +38,58 @@ static void del_list(lp_polynomial_t** l, size_t n) {
   free(l);
 }
 
+/* resultant / psc / subres of P, Q (texts) in the context g_ctx with x_v on top */
+static void do_sr(int v, const char* ptxt, const char* qtxt) {
+  set_top(v);
+  lp_polynomial_t* P = cnew(ptxt);
+  lp_polynomial_t* Q = cnew(qtxt);
+  if (lp_polynomial_is_constant(P) || lp_polynomial_is_constant(Q) ||
+      lp_polynomial_top_variable(P) != pio_x[v] || lp_polynomial_top_variable(Q) != pio_x[v]) {
+    printf("UNKNOWN not in the domain");
+    lp_polynomial_delete(P); lp_polynomial_delete(Q); return;
+  }
+  size_t dp = lp_polynomial_degree(P), dq = lp_polynomial_degree(Q);
+  size_t n = (dp < dq ? dp : dq) + 1;
+  /* resultant: fresh, pre-used, aliased with either operand */
+  printf("R ");
+  { lp_polynomial_t* r = lp_polynomial_new(g_ctx); lp_polynomial_resultant(r, P, Q); pio_print(r); lp_polynomial_delete(r); }
+  putchar(' ');
+  { lp_polynomial_t* r = cnew("7*x0^2*x1^1+-3*x2^3+11"); lp_polynomial_resultant(r, P, Q); pio_print(r); lp_polynomial_delete(r); }
+  putchar(' ');
+  { lp_polynomial_t* r = lp_polynomial_new_copy(P); lp_polynomial_resultant(r, r, Q); pio_print(r); lp_polynomial_delete(r); }
+  putchar(' ');
+  { lp_polynomial_t* r = lp_polynomial_new_copy(Q); lp_polynomial_resultant(r, P, r); pio_print(r); lp_polynomial_delete(r); }
+  /* psc */
+  { lp_polynomial_t** l = new_list(n, NULL); lp_polynomial_psc(l, P, Q); print_list("PSC", l, n); del_list(l, n); }
+  { lp_polynomial_t** l = new_list(n, "5*x0^3*x2^1+-2*x1^2+9"); lp_polynomial_psc(l, P, Q); print_list("PSCU", l, n); del_list(l, n); }
+  /* subresultants */
+  { lp_polynomial_t** l = new_list(n, NULL); lp_polynomial_subres(l, P, Q); print_list("SUB", l, n); del_list(l, n); }
+  { lp_polynomial_t** l = new_list(n, "4*x0^1*x1^1*x2^1+-6*x0^5+1"); lp_polynomial_subres(l, P, Q); print_list("SUBU", l, n); del_list(l, n); }
+  lp_polynomial_delete(P); lp_polynomial_delete(Q);
+}
+
 int main(void) {
   pio_init(lp_Z);
   while (next_case()) {
+    /* watchdog: a case that does not finish kills the driver (reported as a crash on that case; the runner restarts) */
+    alarm(CASE_SECONDS);
+    g_ctx = pio_ctx;
     if (vntok == 0) { end_case(); continue; }
     if (is_op("sr") && vntok >= 4) {
-      int v = atoi(vtok[1]);
-      set_top(v);
-      lp_polynomial_t* P = pio_new(vtok[2]);
-      lp_polynomial_t* Q = pio_new(vtok[3]);
-      if (lp_polynomial_is_constant(P) || lp_polynomial_is_constant(Q) ||
-          lp_polynomial_top_variable(P) != pio_x[v] || lp_polynomial_top_variable(Q) != pio_x[v]) {
-        printf("UNKNOWN not in the domain");
-        lp_polynomial_delete(P); lp_polynomial_delete(Q); end_case(); continue;
-      }
-      size_t dp = lp_polynomial_degree(P), dq = lp_polynomial_degree(Q);
-      size_t n = (dp < dq ? dp : dq) + 1;
-      /* resultant: fresh, pre-used, aliased with either operand */
-      printf("R ");
-      /* the first call works on operands that no API call has touched since they were built (with VERIF_STALE=1 they
-         are external polynomials still laid out for another order: the operation itself has to re-order BOTH) */
-      { lp_polynomial_t* Pf = pio_new(vtok[2]); lp_polynomial_t* Qf = pio_new(vtok[3]);
-        lp_polynomial_t* r = lp_polynomial_new(pio_ctx); lp_polynomial_resultant(r, Pf, Qf); pio_print(r); lp_polynomial_delete(r);
-        lp_polynomial_delete(Pf); lp_polynomial_delete(Qf); }
-      putchar(' ');
-      { lp_polynomial_t* r = pio_new("7*x0^2*x1^1+-3*x2^3+11"); lp_polynomial_resultant(r, P, Q); pio_print(r); lp_polynomial_delete(r); }
-      putchar(' ');
-      { lp_polynomial_t* r = lp_polynomial_new_copy(P); lp_polynomial_resultant(r, r, Q); pio_print(r); lp_polynomial_delete(r); }
-      putchar(' ');
-      { lp_polynomial_t* r = lp_polynomial_new_copy(Q); lp_polynomial_resultant(r, P, r); pio_print(r); lp_polynomial_delete(r); }
-      /* psc */
-      { lp_polynomial_t* Pf = pio_new(vtok[2]); lp_polynomial_t* Qf = pio_new(vtok[3]);
-        lp_polynomial_t** l = new_list(n, NULL); lp_polynomial_psc(l, Pf, Qf); print_list("PSC", l, n); del_list(l, n);
-        lp_polynomial_delete(Pf); lp_polynomial_delete(Qf); }
-      { lp_polynomial_t** l = new_list(n, "5*x0^3*x2^1+-2*x1^2+9"); lp_polynomial_psc(l, P, Q); print_list("PSCU", l, n); del_list(l, n); }
-      /* subresultants */
-      { lp_polynomial_t* Pf = pio_new(vtok[2]); lp_polynomial_t* Qf = pio_new(vtok[3]);
-        lp_polynomial_t** l = new_list(n, NULL); lp_polynomial_subres(l, Pf, Qf); print_list("SUB", l, n); del_list(l, n);
-        lp_polynomial_delete(Pf); lp_polynomial_delete(Qf); }
-      { lp_polynomial_t** l = new_list(n, "4*x0^1*x1^1*x2^1+-6*x0^5+1"); lp_polynomial_subres(l, P, Q); print_list("SUBU", l, n); del_list(l, n); }
-      lp_polynomial_delete(P); lp_polynomial_delete(Q);
+      do_sr(atoi(vtok[1]), vtok[2], vtok[3]);
+      end_case(); continue;
+    }
+    if (is_op("srp") && vntok >= 5) {
+      /* srp M V P Q : the same in a context over Z_M (M prime) */
+      lp_integer_t M; mpz_init_set_str(&M, vtok[1], 10);
+      lp_int_ring_t* K = lp_int_ring_create(&M, mpz_probab_prime_p(&M, 25) ? 1 : 0);
+      mpz_clear(&M);
+      lp_polynomial_context_t* ctx = lp_polynomial_context_new(K, pio_db, pio_order);
+      g_ctx = ctx;
+      do_sr(atoi(vtok[2]), vtok[3], vtok[4]);
+      g_ctx = pio_ctx;
+      lp_polynomial_context_detach(ctx);
+      lp_int_ring_detach(K);
       end_case(); continue;
     }
     if (is_op("disc") && vntok >= 3) {
